@@ -556,4 +556,33 @@ example : runOuts (init .sync) [.open_, .msg (.welcome 1) [],
      .progress 8 (.result [5] []), .progress 7 (.plain [6] []), .userError,
      .complete 0 (.value .none_), .callback 0 (.value .none_)] := by decide
 
+
+/-! ## when `send()` raises -/
+
+/-- `call` (and acknowledged `publish`) forget the request when `send()` raises: the call raises what `send()` raised,
+returns no future, and the table is as before (minus anything stale under that id). `subscribe` (likewise `register`,
+`_unsubscribe`, `_unregister`) raise as well but *keep* their record: an orphan whose future nobody holds; a later
+reply with that id is still routed to it, and it is failed at session end. -/
+theorem send_failure (s : Sess) (ht : s.transport = true) :
+    (∀ u a k o, (apiStep s (.call u a k o .raises)).1.tbl .call = adel s.drawId.2 (s.tbl .call) ∧
+      (apiStep s (.call u a k o .raises)).2 =
+        [.send { typ := .call, req := s.drawId.2, opts := optAttrs CallOpts.attrs o, uri := u, args := a, kwargs := k },
+         .raise_ .sendFailed]) ∧
+    (∀ h t o, alookup s.drawId.2 ((apiStep s (.subscribe h t o .raises)).1.tbl .subscribe) =
+        some { fut := s.futs.length, uri := t, handler := h, detailsArg := o.bind (·.detailsArg) } ∧
+      (apiStep s (.subscribe h t o .raises)).2 =
+        [.send { typ := .subscribe, req := s.drawId.2, opts := optAttrs SubOpts.attrs o, uri := t }, .raise_ .sendFailed]) := by
+  have hnt : (!s.transport) = false := by simp [ht]
+  constructor
+  · intro u a k o
+    simp only [apiStep, apiCall, hnt, Bool.false_eq_true, ↓reduceIte, request, sendReq_fail_forget]
+    refine ⟨?_, by simp⟩
+    simp only [setTbl_tbl_self, unwatch_tbl, newFut_tbl, drawId_tbl, newFut_snd, drawId_futs]
+    exact adel_aset_self _ _ _
+  · intro h t o
+    simp only [apiStep, apiSubscribe, hnt, Bool.false_eq_true, ↓reduceIte, request, sendReq_fail_keep]
+    refine ⟨?_, by simp⟩
+    simp only [unwatch_tbl, setTbl_tbl_self, newFut_tbl, drawId_tbl, newFut_snd, drawId_futs]
+    exact alookup_aset_self _ _ _
+
 end Abverif.Session
